@@ -335,6 +335,18 @@ var c19Kinds = []c19Kind{
 		}
 		return sb.String(), nil
 	}},
+	{Name: "sd-project-plantuml", Need: "model", NT: c19ge("apps", "calls_in_ep"), Gen: func(e *c19Env) (string, error) {
+		if e.m.Apps["ProjSeq"] == nil {
+			return "", fmt.Errorf("no sequence project application")
+		}
+		r, err := sequencediagram.DoConstructSequenceDiagrams(&cmdutils.CmdContextParamSeqgen{
+			EndpointFormat: "%(epname) %(args)", AppFormat: "%(appname)", Title: "t", Output: "%(epname).puml",
+			AppsFlag: []string{"ProjSeq"}, BlackboxesFlag: map[string]string{}}, e.m, e.lg)
+		if err != nil {
+			return "", err
+		}
+		return c19JoinMap(r), nil
+	}},
 	{Name: "ints-plantuml", Need: "model", Gen: c19Ints(false, false), NT: c19ge("apps", "call_edges")},
 	{Name: "ints-plantuml-epa", Need: "model", Gen: c19Ints(true, false), NT: c19ge("apps", "call_edges")},
 	{Name: "ints-plantuml-clustered", Need: "model", Gen: c19Ints(false, true), NT: c19ge("apps", "call_edges")},
